@@ -59,12 +59,48 @@ def seed_script(s, h, idx, rng, enable=7, coin=0):
     return sec, bday, feats
 
 
+def extremal_idx(rng, src_words, tries=60000):
+    """A valid phrase (coin 0) in which every one of the 16 words - the check word too - has the maximal length."""
+    mx = max(len(x) for x in src_words)
+    longest = [i for i in range(2048) if len(src_words[i]) == mx]
+    even = [i for i in longest if i % 2 == 0] or [i for i in range(0, 2048, 2) if len(src_words[i]) >= mx - 3]
+    for _ in range(tries):
+        w = [0] + [rng.choice(longest) for _ in range(15)]
+        w[2] = rng.choice(even)
+        w = codec.fix_check(w)
+        if len(src_words[w[0]]) == mx:
+            return w
+    return None
+
+
+def seed_with_check_word(rng, value, coin=0):
+    """A seed (secret, birthday, features=0) whose phrase for `coin` has the given check word."""
+    while True:
+        sec, bday = rand_secret(rng), rng.below(1024)
+        if codec.words_of(sec, bday, 0, coin)[0] == value:
+            return sec, bday, 0
+
+
+def chunk_boundary_seeds(rng):
+    """Seeds that are far from linear: every 10-bit chunk of the secret takes extreme and patterned VALUES
+    (1023, 1022, 512, 0x2AA, 0x155), with the word's feature/birthday bit clear and set."""
+    out = []
+    for j in range(15):
+        for val in (1023, 1022, 512, 0x2AA, 0x155, 1):
+            for extra in (0, 1):
+                w = [0] + [rng.below(2048) for _ in range(15)]
+                w[j + 1] = (val << 1) | extra
+                w[2] &= ~1
+                out.append(codec.seed_of_words(codec.fix_check(w)))
+    return out
+
+
 # ----------------------------------------------------------------------------------------------- C01
 def c01(ck):
     rng = Rng(ck.seed)
     quick = ck.tier == "quick"
     ck.model("Theorems.tla", "Theorems_roundtrip.cfg")
-    secrets = gen.boundary_secrets(rng, 20 if quick else 400)
+    secrets = gen.boundary_secrets(rng, 20 if quick else 3000)
     if quick:
         # every unit bit is used, spread over the languages, in the full tier with all languages
         pass
@@ -96,14 +132,19 @@ def c01(ck):
             s.add("decode", r, 0, 1)
             s.add("decodex", r, 0, lid, 2)
             ck.add(Exec("ambiguous-%s-%d" % (lid, made), s.lines))
-    # longest decomposed Korean / Japanese phrases
+    # longest decomposed Korean / Japanese phrases: the extremal one, then a ladder of decreasing lengths
     for lid in ("ko", "jp"):
         L = codec.lang(lid)
         order = sorted(range(2048), key=lambda i: -len(L["wb"][i]))
-        for k in range(4 if quick else 40):
-            w = [0] + [order[rng.below(8 + 4 * k)] for _ in range(15)]
-            w[2] &= ~1
-            w = codec.fix_check(w)
+        ext = extremal_idx(rng, L["wb"])
+        for k in range(12 if quick else 120):
+            if k == 0 and ext:
+                w = ext
+            else:
+                top = 8 + (40 if quick else 8) * k          # from near-maximal down to ordinary lengths
+                w = [0] + [order[rng.below(min(top, 2048))] for _ in range(15)]
+                w[2] &= ~1
+                w = codec.fix_check(w)
             sec, bday, feats = codec.seed_of_words(w)
             s = Script()
             s.make_seed(0, sec, bday, feats, rng, enable=7)
@@ -204,10 +245,14 @@ def c02(ck):
                 s.add("free", 1)
             ck.add(Exec("swap-%s-%d" % (lid, rep), s.lines))
     # erasure recovery: exactly one word validates at a missing position
-    for rep in range(1 if quick else 6):
+    for rep in range(2 if quick else 8):
         lid = "en" if rep == 0 else rng.choice(LANG_IDS)
         idx = rand_idx(rng)
         pos = rng.below(16)
+        if rep == 1:        # the check word itself missing, on a phrase whose check word is entry 0
+            sec, bday, f = seed_with_check_word(rng, 0)
+            idx = codec.words_of(sec, bday, f)
+            pos = 0
         for part, vs in enumerate(chunked(list(range(2048)), 512)):
             s = Script()
             s.add("enable", 7)
@@ -277,6 +322,36 @@ def c03(ck):
             s.add("encode", 0, LANG_IDS[(i + j) % 10], rng.choice(COINS_BOUNDARY), 1)
             s.add("free", 0)
         ck.add(Exec("pairs-%d" % n, s.lines))
+    # far from linear: chunk values at their extremes, and plain random seeds
+    dense = chunk_boundary_seeds(rng) + [(rand_secret(rng), rng.below(1024), rng.choice([0, 5, 16, 21])) for _ in range(300 if quick else 6000)]
+    dense.append((bytes([255] * 18 + [63]), 1023, 23))
+    for n, grp in enumerate(chunked(dense, 30)):
+        s = Script()
+        for sec, bday, feats in grp:
+            s.make_seed(0, sec, bday, feats & ~8, rng, enable=7)
+            s.add("encode", 0, LANG_IDS[(n + len(s.lines)) % 10], rng.choice(COINS_BOUNDARY), 1)
+            s.add("free", 0)
+        ck.add(Exec("dense-%d" % n, s.lines))
+    # pure function of (secret, birthday, features, coin, language): however the seed object came about
+    for n in range(30 if quick else 400):
+        s = Script()
+        f, m = feature_choices(rng)
+        s.make_seed(0, rand_secret(rng), rng.below(1024), f, rng, enable=7)
+        lid, coin = rng.choice(LANG_IDS), rng.below(2048)
+        s.add("store", 0, 1)
+        s.add("load", 1, 1)                       # the same seed, loaded
+        s.add("encode", 0, lid, coin, 1)
+        s.add("decodex", 1, coin, lid, 2)         # the same seed, decoded
+        for h in (0, 1, 2):
+            pw = s.string(rng.choice([b"a", b"bb", "ñandú".encode()]))
+            for _ in range(1 + rng.below(2)):
+                s.add("env", "mask=" + hx(biased_mask(rng, rng.below(12))))
+                s.add("crypt", h, pw)
+                if rng.chance(1, 2):
+                    s.add("encode", h, rng.choice(LANG_IDS), rng.choice([coin, 0]), s.sreg())
+            s.add("encode", h, lid, coin, s.sreg())
+            s.add("encode", h, rng.choice(LANG_IDS), coin, s.sreg())
+        ck.add(Exec("object-history-%d" % n, s.lines))
     # histories must not matter: the same seed reached by load and by decode encodes identically
     for n in range(10 if quick else 100):
         s = Script()
@@ -304,7 +379,7 @@ def c04(ck):
     rng = Rng(ck.seed)
     quick = ck.tier == "quick"
     ck.model("Theorems.tla", "Theorems_kdf.cfg")
-    for n in range(24 if quick else 300):
+    for n in range(24 if quick else 4000):
         s = Script()
         f, m = feature_choices(rng)
         bday = rng.choice(MONTHS_BOUNDARY + [600, 777]) if n % 2 else rng.below(1024)
@@ -361,6 +436,20 @@ def c05(ck):
                 s.add("decodex", 1, b, lid, 1)
                 s.add("free", 1)
             ck.add(Exec("col-%s-%d" % (lid, part), s.lines))
+    # seeds whose check word takes boundary values (0: "no checksum"?, 1, 1023, 1024, 2047)
+    for cw in (0, 1, 1023, 1024, 2047):
+        s = Script()
+        a = rng.choice([0, 0, rng.below(2048)])
+        sec, bday, f = seed_with_check_word(rng, cw, a)
+        s.make_seed(0, sec, bday, f, rng, enable=7)
+        lid = rng.choice(["en", "en", "es", "jp"])
+        s.add("encode", 0, lid, a, 1)
+        for b in sorted({a, a ^ 1, a ^ 2, a ^ 1024, a ^ 2047, 0, 1, 2047} | {rng.below(2048) for _ in range(12 if quick else 200)}):
+            s.add("decodex", 1, b, lid, 1)
+            s.add("free", 1)
+            s.add("decode", 1, b, 1)
+            s.add("free", 1)
+        ck.add(Exec("checkword-%d" % cw, s.lines))
     for lid in LANG_IDS:
         s = Script()
         f, m = feature_choices(rng)
@@ -409,6 +498,24 @@ def c06(ck):
             chk = codec.words_of(sec, bday, f)[0]
             bufs.append(codec.image(sec, bday, f, chk))
             bufs.append(codec.image(sec, bday, f, chk ^ 1))
+        # every PAIR of single deviations (two fields wrong at once), with the check value as stored and recomputed
+        devs = [(9, 0x80, "x"), (28, 0x40, "x"), (28, 0x80, "x"), (28, 0xC0, "x"), (29, 0x01, "x"), (29, 0x80, "x"), (29, 0xFF, "x"),
+                (31, 0x80, "x"), (31, 0x40, "x"), (31, 0x20, "x"), (31, 0x10, "x"), (31, 0x08, "x"), (0, 0x20, "x"), (7, 0x01, "x"),
+                (9, 0x20, "x"), (9, 0x40, "x"), (30, 0x01, "x"), (12, 0x10, "x")]
+        for i in range(len(devs)):
+            for j in range(i + 1, len(devs)):
+                b = bytearray(img)
+                for pos, bits, how in (devs[i], devs[j]):
+                    b[pos] ^= bits
+                bufs.append(bytes(b))
+                # ... and with the check value recomputed for the content the loader would see
+                v = b[8] | (b[9] << 8)
+                s2 = bytes(b[10:28]) + bytes([b[28] & 63])
+                chk = codec.words_of(s2, v & 1023, (v >> 10) & 31)[0]
+                b2 = bytearray(b)
+                b2[30] = chk & 255
+                b2[31] = (b[31] & 0xF8) | (chk >> 8)
+                bufs.append(bytes(b2))
         for _ in range(200 if quick else 3000):     # multi-bit mutations
             b = bytearray(img)
             for _ in range(2 + rng.below(4)):
@@ -437,6 +544,20 @@ def c06(ck):
             s.add("free", 1)
             s.add("free", 0)
         ck.add(Exec("roundtrip-%d" % grp[0], s.lines))
+    # every seed the library can hold: encrypted ones too (all values of the two dropped mask bits), user features
+    for n in range(8 if quick else 100):
+        s = Script()
+        for k in range(8):
+            s.make_seed(0, rand_secret(rng), rng.below(1024), rng.choice([0, 5, 7]), rng, enable=7)
+            for _ in range(1 + rng.below(3)):
+                s.add("env", "mask=" + hx(biased_mask(rng, n * 8 + k)))
+                s.add("crypt", 0, s.string(b"pw%d" % k))
+                s.add("store", 0, 1)
+                s.add("load", 1, 1)
+                s.add("store", 1, 2)
+                s.add("free", 1)
+            s.add("free", 0)
+        ck.add(Exec("roundtrip-crypted-%d" % n, s.lines))
     ck.validate()
     ck.exhaustive = not quick
     ck.assumptions += ["acceptance over all 2^256 buffers is explored by the field-wise exhaustive neighbourhood of valid images "
@@ -596,48 +717,50 @@ def c10(ck):
     rng = Rng(ck.seed)
     quick = ck.tier == "quick"
     ck.model("Theorems.tla", "Theorems_features.cfg")
-    sec = rand_secret(rng)
-    for m in range(8):
-        arg = m if m % 2 == 0 else m + rng.choice([8, 0xFFFFFFF8, 64])
-        for grp_no, fs in enumerate(chunked(list(range(32)), 8)):
+    ck.model("PolyseedMC.tla", "PolyseedMC_quick.cfg" if quick else "PolyseedMC_thorough.cfg", heap="16g", timeout=3400)
+    for rep in range(1 if quick else 12):
+        sec = rand_secret(rng)
+        for m in range(8):
+            arg = m if m % 2 == 0 else m + rng.choice([8, 0xFFFFFFF8, 64])
+            for grp_no, fs in enumerate(chunked(list(range(32)), 8)):
+                s = Script()
+                # enabling is not cumulative: the last call wins
+                for prev in [rng.below(8) for _ in range(rng.below(3))]:
+                    s.add("enable", prev)
+                s.add("enable", arg)
+                for f in fs:
+                    bday = rng.below(1024)
+                    idx = codec.words_of(sec, bday, f, 0)
+                    b = s.buf(codec.image(sec, bday, f))
+                    s.add("load", b, 1)
+                    s.add("feat", 1, rng.choice([7, 1, 2, 4, 15, 0xFFFFFFFF, 8, 16, 24]))
+                    s.add("isenc", 1)
+                    s.add("free", 1)
+                    r = s.string(codec.phrase("en", idx))
+                    s.add("decode", r, 0, 1)
+                    s.add("decodex", r, 0, "en", 2)
+                    r2 = s.string(codec.phrase("jp", idx))
+                    s.add("decodex", r2, 0, "jp", 3)
+                    # accepted ones survive phrase, storage and encryption round trips
+                    s.add("encode", 1, "es", 3, s.sreg())
+                    s.add("decodex", s.nstr, 3, "es", 4)
+                    s.add("env", "mask=" + hx(rng.bytes(32)))
+                    s.add("crypt", 2, s.string(b"pw"))
+                    s.add("store", 2, s.breg())
+                    s.add("load", s.nbuf, 5)
+                    for h in (1, 2, 3, 4, 5):
+                        s.add("free", h)
+                ck.add(Exec("gate-r%d-m%d-%d" % (rep, m, grp_no), s.lines))
             s = Script()
-            # enabling is not cumulative: the last call wins
-            for prev in [rng.below(8) for _ in range(rng.below(3))]:
-                s.add("enable", prev)
             s.add("enable", arg)
-            for f in fs:
-                bday = rng.below(1024)
-                idx = codec.words_of(sec, bday, f, 0)
-                b = s.buf(codec.image(sec, bday, f))
-                s.add("load", b, 1)
-                s.add("feat", 1, rng.choice([7, 1, 2, 4, 15, 0xFFFFFFFF, 8, 16, 24]))
+            for u in list(range(16)) + [0xFFFFFFF8 + m, 0x80000000 | m, 24 + (m ^ 5)]:
+                s.add("env", "rand=" + hx(rand_secret(rng)))
+                s.add("create", 1, u)
+                for q in (0, 1, 2, 4, 7, 15, 0xFFFFFFFF):
+                    s.add("feat", 1, q)
                 s.add("isenc", 1)
                 s.add("free", 1)
-                r = s.string(codec.phrase("en", idx))
-                s.add("decode", r, 0, 1)
-                s.add("decodex", r, 0, "en", 2)
-                r2 = s.string(codec.phrase("jp", idx))
-                s.add("decodex", r2, 0, "jp", 3)
-                # accepted ones survive phrase, storage and encryption round trips
-                s.add("encode", 1, "es", 3, s.sreg())
-                s.add("decodex", s.nstr, 3, "es", 4)
-                s.add("env", "mask=" + hx(rng.bytes(32)))
-                s.add("crypt", 2, s.string(b"pw"))
-                s.add("store", 2, s.breg())
-                s.add("load", s.nbuf, 5)
-                for h in (1, 2, 3, 4, 5):
-                    s.add("free", h)
-            ck.add(Exec("gate-m%d-%d" % (m, grp_no), s.lines))
-        s = Script()
-        s.add("enable", arg)
-        for u in list(range(16)) + [0xFFFFFFF8 + m, 0x80000000 | m, 24 + (m ^ 5)]:
-            s.add("env", "rand=" + hx(rand_secret(rng)))
-            s.add("create", 1, u)
-            for q in (0, 1, 2, 4, 7, 15, 0xFFFFFFFF):
-                s.add("feat", 1, q)
-            s.add("isenc", 1)
-            s.add("free", 1)
-        ck.add(Exec("create-m%d" % m, s.lines))
+            ck.add(Exec("create-r%d-m%d" % (rep, m), s.lines))
     ck.validate()
     ck.exhaustive = True
 
@@ -715,7 +838,7 @@ def c12(ck):
         pws.append(bytes(p["nfd"]))
     pws += [b"a" * 30, b"x" * 542, b"x" * 543, b"y" * 544, b"z" * 700, ("ü" * 100).encode()]
     k = 0
-    for n in range(30 if quick else 400):
+    for n in range(30 if quick else 5000):
         s = Script()
         f = rng.choice([0, 5, 7, 2])
         sec = bytearray(rand_secret(rng))
@@ -771,21 +894,9 @@ def c17(ck):
         orderc = sorted(range(2048), key=lambda i: (-len(L["wcb"][i]), i))
         maxima[lid] = dict(decomposed=16 * len(L["wb"][order[0]]) + 15 * len(bytes(L["sep"])),
                            composed=16 * len(L["wcb"][orderc[0]]) + 15 * len(bytes(L["sepC"])))
-        def extremal(src_words):
-            """A valid phrase in which every one of the 16 words (the check word too) has the maximal length."""
-            mx = max(len(x) for x in src_words)
-            longest = [i for i in range(2048) if len(src_words[i]) == mx]
-            even = [i for i in longest if i % 2 == 0] or [i for i in range(0, 2048, 2) if len(src_words[i]) >= mx - 3]
-            for _ in range(60000):
-                w = [0] + [rng.choice(longest) for _ in range(15)]
-                w[2] = rng.choice(even)
-                w = codec.fix_check(w)
-                if len(src_words[w[0]]) == mx:
-                    return w
-            return None
-        exts = [x for x in (extremal(L["wb"]), extremal(L["wcb"])) if x]
+        exts = [x for x in (extremal_idx(rng, L["wb"]), extremal_idx(rng, L["wcb"])) if x]
         ck.extra.setdefault("extremal_witness_lengths", {})[lid] = [len(codec.phrase(lid, w, composed=False)) for w in exts]
-        for k in range(6 if quick else 50):
+        for k in range(6 if quick else 400):
             src = order if k % 2 == 0 else orderc
             top = 1 + k * 2
             if k < len(exts):
@@ -818,7 +929,7 @@ def c19(ck):
     execs = []
     for lid in LANG_IDS:
         L = codec.lang(lid)
-        for n in range(4 if quick else 40):
+        for n in range(4 if quick else 300):
             s = Script()
             f = rng.choice([0, 16, 5])
             s.make_seed(0, rand_secret(rng), rng.below(1024), f, rng, enable=7)
@@ -881,9 +992,9 @@ def structured_strings(rng, n):
         L = codec.lang(lid)
         idx = rand_idx(rng, features=rng.choice([0, 0, 16, 8, 1]))
         toks = [L["wcb"][i] if rng.chance(1, 2) else L["wb"][i] for i in idx]
-        kind = rng.below(14)
+        kind = rng.below(16)
         sep = b" "
-        if kind == 0:
+        if kind in (0, 14, 15):
             pass
         elif kind == 1 and L["prefix"]:
             toks = [t if len(t) <= 4 else bytes(b for b in L["wb"][i] if b < 128)[:4 + rng.below(3)] for t, i in zip(toks, idx)]
@@ -918,8 +1029,9 @@ def structured_strings(rng, n):
             out.append(rng.bytes(rng.below(200)).replace(b"\x00", b"\x01"))
             continue
         elif kind == 11:
-            p = rng.below(16)
-            toks[p] = toks[p] + rng.choice([b"x", b"\xcc\x81", b"\xff", "ñ".encode()])
+            p = rng.choice([0, 0, rng.below(16)])
+            deco = rng.choice([b"x", b"\xcc\x81", b"\xff", "ñ".encode(), "¿".encode(), "\ufeff".encode(), "\u200b".encode(), "的".encode(), "あ".encode()])
+            toks[p] = (deco + toks[p]) if rng.chance(1, 2) else (toks[p] + deco)
         elif kind == 12:
             i, j = rng.below(16), rng.below(16)
             toks[i], toks[j] = toks[j], toks[i]
@@ -943,14 +1055,19 @@ def c09(ck):
                 continue
             r = s.string(st)
             coin = rng.choice([0, 0, 1, 2047])
-            s.add("decode", r, coin, 1, "nolang" if rng.chance(1, 8) else "")
+            s.add("decode", r, coin, 1)
+            s.add("free", 1)
+            s.add("decode", r, coin, 1, "nolang")          # the caller may pass no language pointer: same answers
             s.add("free", 1)
             for lid in LANG_IDS:
                 s.add("decodex", r, coin, lid, 1)
                 s.add("free", 1)
-            if rng.chance(1, 4):
+            if rng.chance(1, 3):
+                # precedence with a failing allocator: checksum before memory, memory before unsupported
                 s.add("env", "fail=1")
                 s.add("decode", r, coin, 1)
+                for lid in LANG_IDS:             # and the two decoders must agree under that allocator too
+                    s.add("decodex", r, coin, lid, 1)
                 s.add("env", "fail=0")
         ck.add(Exec("strings-%d" % n, s.lines))
     ck.validate()
@@ -1124,6 +1241,126 @@ def mc_behaviours(ck, cfg, limit):
     return out
 
 
+
+# ----------------------------------------------------------------------------------------------- the repository's own scenario
+def repo_test_scenario():
+    """The repository's test script (tests/tests.c), re-run through the conformance driver so that every call
+    it makes is judged by the specification - with the complete projection of all live seeds, the dependency
+    protocol and the ledger - instead of by the handful of assertions the script contains."""
+    import re
+    src = open(os.path.join(run.REPO, "tests", "tests.c"), encoding="utf-8-sig").read()
+
+    def cstr(name):
+        m = re.search(r"static const char\* %s\s*=\s*((?:\s*(?:u8)?\"(?:[^\"\\]|\\.)*\")+)\s*;" % name, src)
+        parts = re.findall(r'"((?:[^"\\]|\\.)*)"', m.group(1))
+        return "".join(parts).encode("utf-8")
+
+    def carr(first_bytes):
+        m = re.search(r"\{\s*(0x%02x, 0x%02x,[^}]*)\}" % (first_bytes[0], first_bytes[1]), src)
+        return bytes(int(x, 16) for x in re.findall(r"0x([0-9a-fA-F]{2})", m.group(1)))
+
+    rand1, rand2, rand3 = carr((0xdd, 0x76)), carr((0x5a, 0x2b)), carr((0x67, 0xb9))
+    mask = carr((0x54, 0x4a))
+    T1, T2, T3 = 1638446400, 3118651200, 4305268800
+    s = Script()
+    en = [cstr("g_phrase_en%d" % i) for i in range(1, 6)]
+    es = [cstr("g_phrase_es%d" % i) for i in range(1, 6)]
+    # --- seed 1
+    s.add("inject", "AAAAAAAA")
+    s.add("numlangs")
+    s.add("env", "rand=" + hx(rand1), "time=%d" % T1)
+    s.add("create", 1, 0)
+    s.add("bday", 1)
+    for q in (1, 2, 4):
+        s.add("feat", 1, q)
+    for f in (1, 2, 4):
+        s.add("create", 9, f)          # unsupported by default
+    s.add("keygen", 1, 0, 32)
+    s.add("store", 1, 1)
+    s.add("load", 1, 2)
+    s.add("free", 2)
+    img = None
+    s.add("encode", 1, "en", 0, 1)
+    s.add("load", 1, 2)
+    s.add("encode", 2, "en", 0, 2)
+    s.add("free", 2)
+    for ph, coin in ((en[0], 0), (en[1], 0), (en[2], 0), (en[3], 0), (en[4], 0), (en[0], 1)):
+        s.add("decode", s.string(ph), coin, 2)
+        s.add("free", 2)
+    for lid in LANG_IDS:
+        r = s.sreg()
+        s.add("encode", 1, lid, 0, r)
+        s.add("decode", r, 0, 2)
+        s.add("free", 2)
+    s.add("free", 1)
+    s.add("free", -1)
+    # --- seed 2
+    s.add("inject", "BBBBBBBB")
+    s.add("env", "rand=" + hx(rand2), "time=%d" % T2)
+    s.add("create", 1, 0)
+    s.add("bday", 1)
+    s.add("enable", 7)
+    for f in (1, 2, 4):
+        s.add("create", 9, f)
+        s.add("feat", 9, 7)
+        s.add("free", 9)
+    s.add("enable", 0)
+    s.add("keygen", 1, 0, 32)
+    s.add("store", 1, 3)
+    s.add("load", 3, 2)
+    s.add("free", 2)
+    r = s.sreg()
+    s.add("encode", 1, "es", 0, r)
+    s.add("decode", r, 0, 2)
+    s.add("free", 2)
+    for ph in es[1:]:
+        s.add("decode", s.string(ph), 0, 2)
+        s.add("free", 2)
+    mult = s.string(cstr("g_phrase_es_mult"))
+    s.add("decode", mult, 0, 2)
+    s.add("decodex", mult, 0, "es", 2)
+    s.add("free", 2)
+    for lid in LANG_IDS:
+        r = s.sreg()
+        s.add("encode", 1, lid, 0, r)
+        s.add("decode", r, 0, 2)
+        s.add("free", 2)
+    s.add("free", 1)
+    # --- seed 3
+    s.add("inject", "CCCCCCCC")
+    s.add("enable", 5)
+    s.add("env", "rand=" + hx(rand3), "time=%d" % T3, "mask=" + hx(mask))
+    for f in (1, 2, 4):
+        s.add("create", 9, f)
+        s.add("free", 9)
+    s.add("create", 1, 1)
+    s.add("feat", 1, 1)
+    s.add("bday", 1)
+    s.add("keygen", 1, 1, 32)
+    s.add("store", 1, 4)
+    s.add("load", 4, 2)
+    s.add("free", 2)
+    r = s.sreg()
+    s.add("encode", 1, "en", 1, r)
+    s.add("decode", r, 1, 2, "nolang")
+    s.add("free", 2)
+    pw = s.string(b"password")
+    s.add("crypt", 1, pw)
+    s.add("isenc", 1)
+    s.add("crypt", 1, pw)
+    s.add("isenc", 1)
+    s.add("free", 1)
+    for g in ("g_phrase_garbage1", "g_phrase_garbage2"):
+        s.add("decode", s.string(cstr(g)), 0, 2)
+    # --- out of memory
+    s.add("inject", "AAAAAAAA")
+    s.add("env", "fail=1")
+    s.add("create", 1, 0)
+    s.add("decode", s.string(en[0]), 0, 1)
+    s.add("env", "fail=0")
+    return s.lines
+
+
 def impl_shapes(ck):
     """Dependency-call shapes the implementation-structure model (PolyseedImpl.tla) can produce."""
     import re
@@ -1162,6 +1399,13 @@ def c13(ck):
     for n, grp in enumerate(chunked(beh, 8)):
         for m, h in enumerate(grp):
             ck.add(Exec("replay-%d-%d" % (n, m), hist_to_script(h)))
+    # the repository's own test script under the specification's eyes (all builds that matter)
+    try:
+        lines = repo_test_scenario()
+        for v in ("plain", "dbg", "san"):
+            ck.add(Exec("repository-test-script-" + v, lines, variant=v))
+    except Exception as e:      # the scenario is parsed from tests/tests.c; a rewritten test file only loses this execution
+        ck.notes.append("repository test scenario not available: %r" % (e,))
     # code -> spec: random walks
     for n in range(60 if quick else 1500):
         ck.add(random_walk(rng, 60 if quick else 120, faults=(n % 3 == 0), name="walk-%d" % n))
@@ -1217,6 +1461,12 @@ def c18(ck):
         b[k // 8] = 1 << (7 - k % 8)
         outs.append(bytes(b))
     outs += [bytes([255] * 19), bytes(19)] + [rng.bytes(19) for _ in range(20 if quick else 500)]
+    # every constant byte (fill patterns a defensive implementation might mistake for "not filled"), whole and as head / tail
+    for v in range(256):
+        outs.append(bytes([v] * 19))
+        if v % 8 == 5 or not quick:
+            outs.append(rng.bytes(15) + bytes([v] * 4))
+            outs.append(bytes([v] * 4) + rng.bytes(15))
     odd_clocks = [0, 1, EPOCH - 1, 2 ** 64 - 1, 2 ** 63, 2 ** 32, EPOCH + 1024 * STEP + 7]
     for n, grp in enumerate(chunked(outs, 40)):
         s = Script()
@@ -1413,7 +1663,22 @@ def c20(ck):
         mask = rng.choice([7, 5])
         setup = ["inject " + rng.choice(["AAAAAAAA", "BBBBBBBB", "ABCABCAB"]), "enable %d" % mask]
         scripts = [thread_script(rng, ncalls, mask) for _ in range(nthreads)]
-        traces, err = ck.work.record_mt(variant, "run%d-%s" % (rn, variant), setup, scripts)
+        # serial reference: the same scripts, one thread at a time (same build) - what each thread must observe
+        serial = []
+        for i, sc in enumerate(scripts):
+            ck.work.record_mt(variant, "serial%d-%d" % (rn, i), setup, [sc])
+            serial.append(run.result_lines(ck.work.mt_bodies[0]))
+        traces, err = ck.work.record_mt(variant, "run%d-%s" % (rn, variant), setup, scripts, serial=None)
+        # compare on the thread's own part of the trace
+        fixed = []
+        bodies = ck.work.mt_bodies
+        for i, tp in enumerate(traces):
+            lines = open(tp).read().splitlines()
+            mine = run.result_lines(bodies[i])
+            if mine != serial[i] and not any('"e":"Fault"' in l for l in lines[-3:]):
+                lines = lines[:-1] + ['{"e":"Fault","op":"threads","what":"serial-mismatch","sig":0,"inapi":true}', '{"e":"End","complete":false}']
+                with open(tp, "w") as f:
+                    f.write("\n".join(lines) + "\n")
         if "ThreadSanitizer" in err:
             tsan_reports += err.count("WARNING: ThreadSanitizer")
             ck.notes.append(err[:1500])
@@ -1421,6 +1686,11 @@ def c20(ck):
         for i, (tr, res) in enumerate(zip(traces, results)):
             ex = Exec("run%d-%s-t%d" % (rn, variant, i), setup + scripts[i], variant=variant,
                       note="one of %d concurrent threads; replay runs this thread's script serially" % nthreads)
+            if res.get("envfault") and not res.get("rejects"):
+                # the normaliser's answers are verified serially by the other checks on the same kind of input; if they
+                # look wrong only here, the library handed the dependency a buffer that another thread was writing to
+                res["rejects"] = [res["envfault"][0].replace('"env-', '"under-threads-env-') + ', {"C20"}']
+                res["envfault"] = []
             ck.absorb(variant, [ex], tr, res, ck.pid, confirm=False)
     # the symbols the library keeps in writable static storage must be exactly the three modelled objects
     ck.extra["tsan_reports"] = tsan_reports
@@ -1516,6 +1786,12 @@ def exit_path_scripts(rng, tag):
                 s.add("decodex", r, 0, lid, 1)
             b = s.buf(codec.image(rand_secret(rng), rng.below(1024), feats))
             s.add("load", b, 1)
+            # allocation failing on the same inputs: the memory status must win over the unsupported one
+            s.add("env", "fail=1")
+            s.add("decode", r, 0, 1)
+            s.add("decodex", r, 0, "ko", 1)
+            s.add("load", b, 1)
+            s.add("env", "fail=0")
     ex("unsupported-features", unsupported)
 
     def storage(s):
@@ -1557,7 +1833,7 @@ def c16(ck):
     # every exit path of every operation, at design level: no temporary holds secret-derived data at return
     ck.model("PolyseedImpl.tla", "PolyseedImpl.cfg", heap="16g", timeout=3000)
     variants = ["plain", "O0"] if ck.tier == "quick" else ["plain", "O0", "O3", "dbg"]
-    rounds = 2 if ck.tier == "quick" else 12
+    rounds = 2 if ck.tier == "quick" else 60
     for v in variants:
         for r in range(rounds):
             for ex in exit_path_scripts(rng, "%s-r%d" % (v, r)):
